@@ -1138,6 +1138,10 @@ func genInterfaceWrapper(n *node, typ reflect.Type) func(*frame) reflect.Value {
 		}
 		var n2 *node
 		if vi, ok := v.Interface().(valueInterface); ok {
+			if (vi == valueInterface{}) || vi.node != nil && vi.node.kind == basicLit && vi.node.typ.cat == nilT {
+				// A nil interpreted interface value is a nil interface value.
+				return reflect.New(typ).Elem()
+			}
 			n2 = vi.node
 		}
 		v = getConcreteValue(v)
@@ -1598,7 +1602,12 @@ func callBin(n *node) {
 			case isEmptyInterface(c.typ):
 				values = append(values, genValue(c))
 			case isInterfaceSrc(c.typ):
-				values = append(values, genValueInterfaceValue(c))
+				if defType.Kind() == reflect.Interface && defType.NumMethod() > 0 {
+					// The methods of the value held by the interface are called through a wrapper.
+					values = append(values, genInterfaceWrapper(c, defType))
+				} else {
+					values = append(values, genValueInterfaceValue(c))
+				}
 			case isFuncSrc(c.typ):
 				values = append(values, genFunctionWrapper(c))
 			case c.typ.cat == arrayT || c.typ.cat == variadicT:
